@@ -4,7 +4,9 @@ CFG = dict(
           "Model/Transports.v and for every codec: channel transport = FIFO, each call returns once, a blocked Read/Write is "
           "blocked only with a live context (C19_chan_fifo/_once/_blocked_write/_blocked_read); WebSocket Read/Write logic: the "
           "results of the Reads are in order the classification of the frames sent, a frame is delivered iff binary and decodable, "
-          "as the decoded value (C19_ws_results/_deliver_iff/_delivered/_blocked_read); HTTP: 400 iff body absent / unreadable / "
+          "as the decoded value (C19_ws_results/_deliver_iff/_delivered/_blocked_read); below the frame (Model/WsFrag.v: fragments, the connection's "
+          "write lock, Writes blocking and giving up mid-frame): every envelope a Read returns was written whole by exactly one Write, in write order, a "
+          "partial frame is never returned (C19_ws_whole_or_nothing, C19_ws_partial_waits); HTTP: 400 iff body absent / unreadable / "
           "undecodable / no header / empty source / unmappable source, never delivered then, else delivered at most once to a Read "
           "of the connection of the mapped address as the decoded value, announced once per connection, no reachable state is "
           "Crashed, one cleaner pass removes exactly the connections idle >= timeout and closes their done channel, blocked "
@@ -37,8 +39,8 @@ CFG = dict(
               "C19_http_blocked_write", "C19_http_cleaner_settled", "C19_http_end_to_end",
               "C19_http_accepts_every_envelope", "C19_http_never_400_on_envelope",
               "C19_http_200_delivered", "C19_http_write_nil", "C19_http_write_nil_read", "C19_http_write_order",
-              "C19_decode_fuel_enough", "C19_skip_groups_fuel_enough"],
-    imports=["Base.Bytes", "Model.WireFormat", "Model.Transports", "Model.HttpLink", "Check.C19c"],
+              "C19_decode_fuel_enough", "C19_skip_groups_fuel_enough", "C19_ws_whole_or_nothing", "C19_ws_partial_waits"],
+    imports=["Base.Bytes", "Model.WireFormat", "Model.Transports", "Model.HttpLink", "Model.WsFrag", "Check.C19c"],
     case_type="c19case", find_bad_from="find_bad_from",
     rigs=[dict(test="TestC19Wire", timeout_quick=300, timeout_thorough=1200),
           dict(test="TestC19Chan", timeout_quick=300, timeout_thorough=1200),
@@ -50,7 +52,8 @@ CFG = dict(
                  "2": "the observed history violates the property predicate (Check/C19c.v: round trip, spec_chan, spec_ws, "
                       "spec_http, CHttpRaw = the 400-iff classification, CHttpE2E = written without error and read equal, CAssert 1 = a parked "
                       "Write ends with its context, CAssert 2 = the channel transport hands over a 1 MiB envelope unchanged, "
-                      "CAssert 6 = a WebSocket Write parked on a connection whose peer does not read (bounded relay), and a second one queued behind it, have "
+                      "CWsFrag = the blocked WebSocket Writes step by step against the fragment-level model (reason 1) + the assertion that was CAssert 6 (reason 2): "
+                      "a WebSocket Write parked on a connection whose peer does not read (bounded relay), and a second one queued behind it, have "
                       "returned an error at the quiescent point after their contexts ended (cancel, cancel with a far deadline, deadline passing), "
                       "CAssert 5 = concurrent writers on one connection: exactly once, unchanged, per-writer order, "
                       "CAssert 3 = Write returns an error for an envelope that the far end refused with 503 / 400 (regression of http-write-ignores-status, "
